@@ -486,6 +486,14 @@ func (g *cityGen) relationSpec(id b6.FeatureID, allowCycles bool) *fspec {
 		var m b6.FeatureID
 		if allowCycles && rc.Pct(35) {
 			m = relID(rc.Draw(maxRels)) // maybe itself, maybe a relation that refers back
+		} else if rels := g.sortedIDs(b6.FeatureTypeRelation); len(rels) > 0 && rc.Pct(30) {
+			// a member another relation has too
+			m = pointID(rc.Draw(maxPoints))
+			if o := g.specs[rels[rc.Draw(len(rels))]]; o != nil && len(o.Members) > 0 {
+				if x := o.Members[rc.Draw(len(o.Members))].ID; allowCycles || x.Type != b6.FeatureTypeRelation {
+					m = x
+				}
+			}
 		} else if x, ok := g.anyExistingID(); ok {
 			m = x
 		} else {
